@@ -290,34 +290,7 @@ def data_len(kinds, crlf):
 
 
 # ------------------------------------------------------------------ (d) back-pressure: a read stream of bounded capacity
-class BoundedRec:
-    """the client's read stream with its capacity: `send` suspends the reader while the buffer is full (the consumer
-    then runs and takes what is buffered), `send_nowait` raises WouldBlock instead; the consumer also runs whenever
-    the reader waits for the next chunk.  One legitimate schedule of a consumer that is slower than the reader."""
-
-    def __init__(self, cap):
-        self.cap, self.buf, self.taken = cap, [], []
-
-    def drain(self):
-        self.taken += self.buf
-        self.buf = []
-
-    def send_nowait(self, item):
-        if len(self.buf) >= self.cap:
-            raise _anyio.WouldBlock()
-        self.buf.append(item)
-
-    async def send(self, item):
-        if len(self.buf) >= self.cap:
-            self.drain()
-        self.buf.append(item)
-
-    async def aclose(self):
-        pass
-
-    @property
-    def items(self):
-        return self.taken + self.buf
+from harness.stdio_fake import BoundedRec  # noqa: E402
 
 
 class _DrainingStdout:
